@@ -72,6 +72,9 @@ def check_detector_kwargs(out: Outcome, rng, ref, test, nb) -> None:
         out.case({"kwargs": name + "-weights", "h": hash(tuple(ref + test)) & 0xFFFFFF})
 
 
+CLOSED = ["left"]       # which side of a bin is closed: [a, b) with the last bin closed (NumPy's convention, the model's) or (a, b] with the first bin closed
+
+
 def proportions(ref, test, nb):
     lo, hi = min(ref + test), max(ref + test)
     if lo == hi:
@@ -82,12 +85,24 @@ def proportions(ref, test, nb):
         c = [0] * nb
         for x in a:
             for i in range(nb):
-                if edges[i] <= x and (x < edges[i + 1] or (i == nb - 1 and x <= edges[i + 1])):
+                if CLOSED[0] == "left":
+                    inside = edges[i] <= x and (x < edges[i + 1] or (i == nb - 1 and x <= edges[i + 1]))
+                else:
+                    inside = (edges[i] < x or (i == 0 and edges[i] <= x)) and x <= edges[i + 1]
+                if inside:
                     c[i] += 1
                     break
         return [v / len(a) for v in c]
 
     return cnt(ref), cnt(test)
+
+
+def on_interior_edge(ref, test, nb) -> bool:
+    lo, hi = min(ref + test), max(ref + test)
+    if lo == hi:
+        return False
+    inner = set(np.linspace(lo, hi, nb + 1)[1:-1].tolist())
+    return any(float(x) in inner for x in ref + test)
 
 
 def binned_formula(name, ref, test, nb):
@@ -206,6 +221,16 @@ def check_pair(out: Outcome, rng, ref, test, nb, lines, expect) -> None:
                     out.violation("js: NaN for (numerically) identical distributions", r)
             continue
         if math.isnan(got) or not approx(got, want):
+            if name in BINNED and on_interior_edge(ref, test, nb):
+                # a value lies EXACTLY on an interior bin edge: the property fixes equal-width bins over the pooled range, not which side of a bin is closed
+                CLOSED[0] = "right"
+                try:
+                    alt = binned_formula(name, ref, test, nb)
+                finally:
+                    CLOSED[0] = "left"
+                if not math.isnan(got) and approx(got, alt):
+                    out.mismatch(f"{name}: distance {got!r} is the textbook formula with bins closed on the right ({alt!r}); the model (and NumPy) close them on the left ({want!r})", r)
+                    continue
             out.violation(f"{name}: distance {got!r} differs from the textbook formula {want!r} (n={len(ref)}, m={len(test)}, num_bins={nb})", r)
             continue
         if got < -1e-12:
